@@ -133,6 +133,7 @@ func c03Routing(c *lib.Ctx, idx uint64) {
 		Serial:        true,
 		MaxFields:     4,
 		ZeroFieldDefs: 4,
+		RedefSimilar:  30,
 		Monster:       3,
 	}
 	g := lib.NewPlanGen(rng, o)
